@@ -64,7 +64,7 @@ def lines_for(tier):
     for m in M:
         L += [f'WHO {m}', f'WHOIS {m}', f'WHOIS {m},{m}']
     L += ['WHO', 'WHOIS', 'WHOIS bob', 'WHOIS srv.x bob', 'WHOIS bob,dave,alice', 'WHOWAS', 'WHOWAS bob', 'WHOWAS oldnick', 'WHOWAS bob 0', 'WHOWAS bob 1', 'WHOWAS bob ' + big, 'WHOWAS bob ' + over, 'WHOWAS bob x',
-          'WHOWAS bob -1', 'WHOWAS bob 1 srv.x', 'ISON', 'ISON bob', 'ISON ' + ' '.join(['bob'] * 25), 'USERHOST', 'USERHOST bob alice dave', 'USERHOST ' + ' '.join(['n%d' % i for i in range(25)]), 'USERHOST #x']
+          'WHOWAS bob -1', 'WHOWAS oldnick 1', 'WHOWAS oldnick 2', 'WHOWAS oldnick 3', 'WHOWAS oldnick 0', 'WHOWAS oldnick ' + big, 'WHOWAS oldnick,bob 9', 'WHOWAS bob 1 srv.x', 'ISON', 'ISON bob', 'ISON ' + ' '.join(['bob'] * 25), 'USERHOST', 'USERHOST bob alice dave', 'USERHOST ' + ' '.join(['n%d' % i for i in range(25)]), 'USERHOST #x']
     L += ['NICK', 'NICK zed', 'NICK bob', 'NICK alice', 'NICK #x', 'NICK a.b', 'NICK é', 'NICK :a b', 'NICK ' + 'n' * 300, 'USER', 'USER a b c d', 'USER a b c', 'PASS', 'PASS x', 'CAP', 'CAP LS', 'CAP LS 302', 'CAP LS 301',
           'CAP LS x', 'CAP LS ' + big, 'CAP REQ', 'CAP REQ :multi-prefix', 'CAP REQ :a b', 'CAP REQ :', 'CAP END', 'CAP LIST', 'CAP FOO', 'AUTHENTICATE', 'AUTHENTICATE PLAIN']
     L += ['PING', 'PING t', 'PING :a b', 'PONG', 'PONG t', 'OPER', 'OPER a', 'OPER opname goodpw', 'OPER opname x', 'OPER #x y', 'QUIT', 'QUIT :bye', 'AWAY', 'AWAY :', 'AWAY :gone', 'AWAY é']
@@ -160,7 +160,7 @@ def make_cases(tier, profile):
         pq.update({'inv_bob_#x': False, 'inv_carol_#x': False, 'ban_#x_1': False, 'exc_#x_0': False, 'exc_#x_1': False, 'invex_#x_0': False, 'invex_#x_1': False,
                    'protected_topic_#x': False, 'no_external_messages_#x': False, 'protected_alice_#x': False, 'voice_alice_#x': False})
     for l in lines_for(tier):
-        cases.append(dict(name=l[:60], line=l, judges=['no_panic', 'keeps_serving'], spec=spec, partial0=pq))
+        cases.append(dict(name=l[:60], line=l, judges=['no_panic', 'keeps_serving'], spec=dict(spec, sym_history=True) if l.upper().startswith('WHOWAS') else spec, partial0=pq))
         cases.append(dict(name=l[:60] + ' [unregistered]', line=l, judges=['no_panic'], spec=dict(spec, sym_ranks=False, sym_lists=False, sym_flags=False, sym_modes=False),
                           conn=dict(registered=False, nick='dave')))
     # over-long line, stream error
